@@ -1,4 +1,154 @@
 import Firefly.Model.Vt
 import Firefly.Spec.Term
+import Firefly.Proof.Vt
+import Firefly.Props.C17
+import Firefly.Gen.C18
+/-!
+# C18 — An active terminal and its console always show the same thing
+
+Statement (properties.jsonl): while a terminal is active, after every write the attached console
+displays exactly the terminal's current viewport — same characters and colours in every cell —
+and nothing is drawn outside the console's cell grid; while it is inactive the console is not
+touched at all.  Activating a terminal redraws the console so that it again equals the viewport,
+whatever was written while it was inactive.  This holds with the shipped text-mode and
+framebuffer consoles, where each cell shows the font glyph of its character in the cell's colours.
+
+Quantifier: every byte stream, every interleaving of activate/deactivate with writes, every
+console.
+
+Here the console is the abstract cell grid `Firefly.Term.Console` (`Spec/Term.lean`): `write` sets
+one cell, `scrollUp n` moves line `i+n` to line `i` (the last `n` lines keep their contents),
+`fill` blanks a rectangle; draw requests outside the grid are counted in `outside`.  `t.out` is the
+list of console calls the VT model has made (newest first), `K0.applyLog t.out` the screen that
+results when they are applied to the console `K0` the terminal was attached to.  That the shipped
+`VgaTextConsole` / `VesaFbConsole` implement this grid (cell ↦ text word / rendered glyph) is C19
+and, for C18, the differential run against the real drivers; the theorems below are about the
+terminal's side of the contract, for all geometries and histories.
+-/
 namespace Firefly.C18
+open Firefly.Vt Firefly.Term Firefly.VtProof Firefly.VtCons Firefly.C17
+
+/-- a console with the geometry `w × h`, whatever it shows -/
+structure Screen (K : Console) (w h : Nat) : Prop where
+  w : K.w = w
+  h : K.h = h
+  wf : WF K
+
+/-- the invariant `Sync` (console follows viewport, every call inside the grid, nothing drawn
+outside) holds after every history that starts with `NewVT` + `AttachTo` -/
+private theorem history_sync {w h sb : Nat} (tab : Nat) (fg bg : UInt8) (hd : Dom w h sb) (ops : List Op)
+    {K0 : Console} (hk : Screen K0 w h) {t : VT} (ht : history w h sb tab fg bg ops = .ok t) :
+    Sync K0 t ∧ Inv t ∧ t.viewportWidth = w ∧ t.viewportHeight = h := by
+  obtain ⟨t0, a0, i0, r0, act0, out0⟩ := attach_spec tab fg bg hd.1 hd.2.1 hd.2.2
+  have hw0 : t0.viewportWidth = w := by have := congrArg Term.w r0; simpa [absVT, Term.new] using this
+  have hh0 : t0.viewportHeight = h := by have := congrArg Term.h r0; simpa [absVT, Term.new] using this
+  have s0 : Sync K0 t0 := Sync.init hk.wf (by rw [hk.w, hw0]) (by rw [hk.h, hh0]) out0 act0
+  have hrun : run t0 ops = .ok t := by simpa [history, a0, Res.bind] using ht
+  obtain ⟨t', a', i', r'⟩ := run_spec ops i0
+  rw [a'] at hrun; cases hrun
+  have c := run_cfg ops (absVT t0)
+  rw [← r'] at c
+  exact ⟨run_sync ops i0 a' K0 s0, i', c.w.trans hw0, c.h.trans hh0⟩
+
+/-- **active_sync** — after every history, if the terminal is Active the console shows exactly the
+terminal's viewport, cell for cell, which is the viewport of the reference terminal of C17. -/
+theorem active_sync {w h sb : Nat} (tab : Nat) (fg bg : UInt8) (hd : Dom w h sb) (ops : List Op)
+    {K0 : Console} (hk : Screen K0 w h) {t : VT} (ht : history w h sb tab fg bg ops = .ok t)
+    (ha : t.active = true) :
+    (K0.applyLog t.out).cells = (absVT t).viewport ∧
+    (K0.applyLog t.out).cells = ((Term.new w h sb tab fg bg).run ops).viewport := by
+  obtain ⟨s, i, _, _⟩ := history_sync tab fg bg hd ops hk ht
+  have e := s.cells_eq i.toGeo ha
+  exact ⟨e, by rw [e]; exact viewport_matches tab fg bg hd ops ht⟩
+
+/-- **inactive_untouched** — while the terminal is Inactive no operation other than the activation
+itself makes any console call. -/
+theorem inactive_untouched {t t' : VT} (i : Inv t) (ha : t.active = false) (op : Op) (hop : op ≠ .state true)
+    (h : step t op = .ok t') : t'.out = t.out :=
+  (step_sync i op h).2 ha hop
+
+/-- **inactive_untouched_history** — a history without an activation never touches the console. -/
+theorem inactive_untouched_history {w h sb : Nat} (tab : Nat) (fg bg : UInt8) (hd : Dom w h sb) (ops : List Op)
+    (hno : ∀ op ∈ ops, op ≠ .state true) {t : VT} (ht : history w h sb tab fg bg ops = .ok t) :
+    t.out = [] ∧ t.active = false := by
+  obtain ⟨t0, a0, i0, -, act0, out0⟩ := attach_spec tab fg bg hd.1 hd.2.1 hd.2.2
+  have hrun : run t0 ops = .ok t := by simpa [history, a0, Res.bind] using ht
+  clear ht a0
+  induction ops generalizing t0 with
+  | nil => cases hrun; exact ⟨out0, act0⟩
+  | cons op ops ih =>
+    obtain ⟨t1, a1, i1, _⟩ := step_spec i0 op
+    have hne : op ≠ .state true := hno op (List.mem_cons_self ..)
+    have o1 : t1.out = [] := by rw [inactive_untouched i0 act0 op hne a1]; exact out0
+    have act1 : t1.active = false := by
+      cases op with
+      | byte b => obtain ⟨t2, b2, _, _, s2, _⟩ := writeByte_spec i0 b
+                  have : step t0 (.byte b) = .ok t2 := b2
+                  rw [this] at a1; cases a1; rw [s2]; exact act0
+      | cursor x y => cases a1; rw [(setCursor_spec i0 x y).2.2.1]; exact act0
+      | state a =>
+        obtain ⟨t2, b2, _, _, s2, _⟩ := setState_spec i0 a
+        have : step t0 (.state a) = .ok t2 := b2
+        rw [this] at a1; cases a1
+        cases a with
+        | false => exact s2
+        | true => exact absurd rfl hne
+    have : run t0 (op :: ops) = run t1 ops := by simp [run, a1, Res.bind]
+    rw [this] at hrun
+    exact ih (fun op h => hno op (List.mem_cons_of_mem _ h)) t1 i1 act1 o1 hrun
+
+/-- **activate_redraws** — activating an Inactive terminal makes console calls that turn *any*
+console of the terminal's geometry, whatever it showed (in particular whatever was written while
+the terminal was Inactive), into the terminal's viewport. -/
+theorem activate_redraws {t t' : VT} (i : Inv t) (ha : t.active = false) (h : step t (.state true) = .ok t') :
+    t'.active = true ∧ ∃ calls, t'.out = calls ++ t.out ∧
+      ∀ K, Screen K t.viewportWidth t.viewportHeight → (K.applyLog calls).cells = (absVT t').viewport := by
+  obtain ⟨t1, a1, i1, r1, act1, o1, d1, v1, _⟩ := setState_spec i true
+  have : step t (.state true) = .ok t1 := a1
+  rw [this] at h; cases h
+  have hne : ¬ (t.active = true ∨ true = false) := by simp [ha]
+  rw [if_neg hne] at o1
+  refine ⟨act1, allRows t.data t.viewportWidth t.viewportY t.viewportHeight 1 [], ?_, ?_⟩
+  · rw [o1, ← allRows_append]; rfl
+  · intro K hk
+    obtain ⟨b1, b2, b3, _, _, b6⟩ := allRows_apply K t.data (vy := t.viewportY) t.viewportHeight 1 []
+      hk.wf hk.w (Nat.le_refl 1) (by show 1 + t.viewportHeight = K.h + 1; rw [hk.h]; omega)
+    have hw : t'.viewportWidth = t.viewportWidth := by have := congrArg Term.w r1; simpa [absVT] using this
+    have hh : t'.viewportHeight = t.viewportHeight := by have := congrArg Term.h r1; simpa [absVT] using this
+    apply cells_eq_viewport i1.toGeo b3 (by rw [b1, hw]) (by rw [b2, hh]; exact hk.h)
+    intro r c hr hc
+    rw [hh] at hr; rw [hw] at hc
+    have := b6 r c (by show r < K.h; rw [hk.h]; exact hr) hc
+    rw [this, if_pos (by omega)]
+    simp only [vcell, d1, v1, hw, Nat.add_comm]
+
+/-- **no_outside_draw** — every console call made in any history addresses the cell grid (a cell
+of the grid, a scroll by one line, a rectangle inside the grid), so the console's count of draw
+requests outside the grid never moves. -/
+theorem no_outside_draw {w h sb : Nat} (tab : Nat) (fg bg : UInt8) (hd : Dom w h sb) (ops : List Op)
+    {K0 : Console} (hk : Screen K0 w h) {t : VT} (ht : history w h sb tab fg bg ops = .ok t) :
+    (∀ c ∈ t.out, CallOk w h c) ∧ (K0.applyLog t.out).outside = K0.outside ∧
+      (K0.applyLog t.out).w = w ∧ (K0.applyLog t.out).h = h := by
+  obtain ⟨s, _, hw, hh⟩ := history_sync tab fg bg hd ops hk ht
+  exact ⟨by rw [← hw, ← hh]; exact s.ok, s.outside, by rw [← hw]; exact s.w, by rw [← hh]; exact s.h⟩
+
+/-! ## Non-vacuity and the generated facts the composition with the shipped consoles rests on -/
+
+example : Screen (Console.new 80 25 ⟨0, 0, 0⟩) 80 25 := ⟨rfl, rfl, new_wf 80 25 _⟩
+
+/-- filling with the background colour equals writing spaces only if glyph 0x20 is blank: a
+generated fact for every shipped font (regenerated from /repo by the harness) -/
+example : Firefly.Gen.C18.shippedFonts.all (fun f => f.2.2.2.2.2) = true := by decide
+
+/-- the shipped consoles' default colours (what the terminal draws with) are in range of the
+16-colour text palette -/
+example : Firefly.Gen.C18.textDefaultFg ≤ 15 ∧ Firefly.Gen.C18.textDefaultBg < 15 := by decide
+
+/-- the hypotheses of `activate_redraws` and `active_sync` are satisfiable: a freshly attached
+80×25 terminal is Inactive, satisfies the invariant, and activating it succeeds and leaves it Active -/
+example : ∃ t t', Inv t ∧ t.active = false ∧ step t (.state true) = .ok t' ∧ t'.active = true := by
+  obtain ⟨t, _, i, _, act, _⟩ := attach_spec (w := 80) (h := 25) (sb := 80) 4 7 0 (by decide) (by decide) (by decide)
+  obtain ⟨t', a, _, _, act', _⟩ := setState_spec i true
+  exact ⟨t, t', i, act, a, act'⟩
+
 end Firefly.C18
